@@ -178,7 +178,7 @@ def split_keys(data):
     return out
 
 
-def run_history(hist, paste_threshold=8, final_drain=True, pre=None, nostart=False, highfd=False):
+def run_history(hist, paste_threshold=8, final_drain=True, pre=None, nostart=False, highfd=False, nomain=False):
     """hist: list of actions {"k": arrive|unget|trig|sched|tsappend|tswrite|tscall|sigint|tick|req, ...}.
     Returns the recorded trace {"paste": threshold or -1, "ev": [...]}"""
     import curtsies.input as cinput
@@ -200,6 +200,11 @@ def run_history(hist, paste_threshold=8, final_drain=True, pre=None, nostart=Fal
 
     saved = (cinput.time, cinput.select, cinput.os)
     cinput.time, cinput.select, cinput.os = env, env, OsProxy(env)
+    saved_main = cinput.is_main_thread
+    if nomain:
+        # the Input is entered and used from a thread that is not the main one: no SIGINT handler, no signal wake-up
+        # descriptor (the library decides this with is_main_thread(); the history holds no SIGINT)
+        cinput.is_main_thread = lambda: False
     old_handler = signal.getsignal(signal.SIGINT)
     rec = env.events
     try:
@@ -406,6 +411,7 @@ def run_history(hist, paste_threshold=8, final_drain=True, pre=None, nostart=Fal
                 pass
     finally:
         cinput.time, cinput.select, cinput.os = saved
+        cinput.is_main_thread = saved_main
         signal.signal(signal.SIGINT, old_handler)
         stream.close()
     return {"paste": -1 if paste_threshold is None else paste_threshold, "ev": rec}
